@@ -425,10 +425,12 @@ class ErrorRanges:
         self._lengths = self._compute_lengths()
 
     def _compute_lengths(self) -> List[int]:
-        lengths = [
-            int(errors / self.error_rate) - 1
-            for errors in range(1, int(self.error_rate * self.length) + 1)
-        ]
+        # lengths[e] is the greatest length at which at most e errors are allowed,
+        # that is, for which int(error_rate * length) <= e
+        lengths = []
+        for length in range(1, self.length + 1):
+            if int(self.error_rate * length) > len(lengths):
+                lengths.append(length - 1)
         if not lengths or lengths[-1] < self.length:
             lengths.append(self.length)
         return lengths
